@@ -251,6 +251,17 @@ Theorem C14_copy_independent :
 Proof. exact copy_independent. Qed.
 Print Assumptions C14_copy_independent.
 
+(* Array(const Array&, MemManager) / vector(const vector&, alloc): equal contents, requested manager, storage of the
+   copy is a fresh block (never the source's), only allocation and copy events *)
+Theorem C14_copy_independent_array :
+  forall ic src m w,
+    (match ablock src with Some b => fst b < next w | None => True end) ->
+    exists c w', arr_copy_ctor_mm ic src m w = (c, w') /\ aitems c = aitems src /\ amgr c = m /\ arr_wf c /\
+      (forall b b0, ablock c = Some b -> ablock src = Some b0 -> fst b <> fst b0) /\
+      (forall P, (forall x y, P (EAlloc x y) = true) -> (forall v, P (ECopy v) = true) -> extends P w w').
+Proof. exact arr_copy_independent. Qed.
+Print Assumptions C14_copy_independent_array.
+
 (* non-vacuity of the manager check: a deallocation through another manager IS an error in the model *)
 Theorem C14_wrong_manager_detected : forall m m' id w, m <> m' -> dealloc m (id, m') w = WrongMgr.
 Proof. exact dealloc_wrong_manager. Qed.
